@@ -11,25 +11,45 @@ From LV Require Import Lib.Bytes Model.C01 Proofs.C01.
 Import ListNotations.
 Local Open Scope N_scope.
 
+(* 0. Where a history starts.  [start kd file expected] is the object BlobManager.get_blob(hash, expected) creates
+      over a blob directory that holds [file] under the blob's name (None: no such file; the fresh object [init] is
+      [start kd None None]).  [start_ok]: the expected length, if given, is at most 2^21, and a file that IS TAKEN
+      OVER is an intact copy; a file whose size differs from a non-zero expected length needs no assumption.
+      The constructor over an existing file: size = expected (or no / zero expected length) -> taken over, verified,
+      length = size; size <> expected -> file deleted, not verified, no length; hence verified with an announced
+      length L means the stored file has exactly L bytes. *)
+Theorem C01_constructor_over_existing_file : forall f expected,
+  let s := start KFile (Some f) expected in
+  (taken_over f expected ->
+     s_verified s = true /\ s_store s = Some f /\ s_len s = Some (N.of_nat (length f)))
+  /\ (~ taken_over f expected -> s_verified s = false /\ s_store s = None /\ s_len s = None)
+  /\ (forall L, expected = Some L -> L <> 0 -> s_verified s = true -> s_len s = Some L /\ N.of_nat (length f) = L).
+Proof. exact start_existing_file. Qed.
+Print Assumptions C01_constructor_over_existing_file.
+
+Theorem C01_fresh_object_is_a_start : forall H h kd, start_ok H h kd None None /\ start kd None None = init.
+Proof. exact (fun H h kd => conj (start_ok_fresh H h kd) (start_fresh kd)). Qed.
+Print Assumptions C01_fresh_object_is_a_start.
+
 (* 1. Whatever has been done to the blob: if it is verified, bytes are stored, they have exactly the accepted
       length, that length is in 1..2^21, and they hash to the blob's name; and anything that is ever in the
       store (file in the blob directory / buffer) has these properties, verified or not. *)
-Theorem C01_only_matching_bytes_verified : forall H h kd cb ops,
-  let s := run H h kd cb ops init in
+Theorem C01_only_matching_bytes_verified : forall H h kd cb file expected, start_ok H h kd file expected -> forall ops,
+  let s := run H h kd cb ops (start kd file expected) in
   (s_verified s = true ->
      exists b L, s_store s = Some b /\ s_len s = Some L /\ N.of_nat (length b) = L
                  /\ 0 < L <= MAX_BLOB_SIZE /\ H b = h)
   /\ (forall b, s_store s = Some b ->
      exists L, s_len s = Some L /\ N.of_nat (length b) = L /\ 0 < L <= MAX_BLOB_SIZE /\ H b = h).
-Proof. exact only_matching. Qed.
+Proof. exact only_matching_start. Qed.
 Print Assumptions C01_only_matching_bytes_verified.
 
 (* 1b. The result of any writer's future, in any reachable state, is a complete correct copy of admissible size
        (that its size was the length accepted at that moment is theorem 2). *)
-Theorem C01_writer_result_is_correct_copy : forall H h kd cb ops i w b,
-  nth_error (s_ws (run H h kd cb ops init)) i = Some w -> w_fut w = FOk b ->
+Theorem C01_writer_result_is_correct_copy : forall H h kd cb file expected, start_ok H h kd file expected -> forall ops i w b,
+  nth_error (s_ws (run H h kd cb ops (start kd file expected))) i = Some w -> w_fut w = FOk b ->
   0 < N.of_nat (length b) <= MAX_BLOB_SIZE /\ H b = h.
-Proof. exact writer_result_good. Qed.
+Proof. exact writer_result_good_start. Qed.
 Print Assumptions C01_writer_result_is_correct_copy.
 
 (* 2. Exact outcome of one write on a live writer (open, future pending; then hash input = buffer) of a blob
@@ -55,14 +75,14 @@ Print Assumptions C01_writer_result_exact.
        (result ROk or InvalidStateError, i.e. not refused with OSError) - [written].  Then t is exactly what the
        writer has hashed, and: result b => b = t, H t = h, 0 < |t| <= 2^21; InvalidBlobHashError => H t <> h;
        still pending => |t| < the accepted length. *)
-Theorem C01_writer_result_exact_history : forall H h kd cb ops i w,
-  nth_error (s_ws (run H h kd cb ops init)) i = Some w ->
-  let t := written i ops (results H h kd cb ops init) in
+Theorem C01_writer_result_exact_history : forall H h kd cb file expected, start_ok H h kd file expected -> forall ops i w,
+  nth_error (s_ws (run H h kd cb ops (start kd file expected))) i = Some w ->
+  let t := written i ops (results H h kd cb ops (start kd file expected)) in
   w_seen w = t
   /\ (forall b, w_fut w = FOk b -> b = t /\ H t = h /\ 0 < N.of_nat (length t) <= MAX_BLOB_SIZE)
   /\ (w_fut w = FErrHash -> H t <> h)
-  /\ (w_fut w = FPending -> forall L, s_len (run H h kd cb ops init) = Some L -> L <> 0 -> N.of_nat (length t) < L).
-Proof. exact writer_history. Qed.
+  /\ (w_fut w = FPending -> forall L, s_len (run H h kd cb ops (start kd file expected)) = Some L -> L <> 0 -> N.of_nat (length t) < L).
+Proof. exact writer_history_start. Qed.
 Print Assumptions C01_writer_result_exact_history.
 
 (* 2b. A write (of anything, by any writer, in any state) never stores, verifies or announces anything by
@@ -96,8 +116,8 @@ Print Assumptions C01_chunk_writes_are_feed.
       has no job, the blob is verified and the store holds bytes of the accepted length hashing to the name;
       (b) drain; io; drain reaches such a state, with writing cleared, and - if nothing was being saved before -
       the completion callback called exactly once more than the calls already made or already queued. *)
-Theorem C01_first_complete_copy_wins : forall H h kd cb ops i w d L,
-  let s := run H h kd cb ops init in
+Theorem C01_first_complete_copy_wins : forall H h kd cb file expected, start_ok H h kd file expected -> forall ops i w d L,
+  let s := run H h kd cb ops (start kd file expected) in
   nth_error (s_ws s) i = Some w -> w_open w = true -> w_fut w = FPending -> s_len s = Some L -> 0 < L ->
   N.of_nat (length (w_buf w ++ d)) = L -> H (w_buf w ++ d) = h ->
   let s1 := fst (step H h kd cb (Write i d) s) in
@@ -108,7 +128,7 @@ Theorem C01_first_complete_copy_wins : forall H h kd cb ops i w d L,
       /\ (exists b, s_store s4 = Some b /\ H b = h /\ N.of_nat (length b) = L)
       /\ (s_verified s = false -> s_writing s = false ->
           s_completed s4 = (s_completed s + cnt is_cp (s_q s) + if cb then 1 else 0)%nat)).
-Proof. exact first_copy_wins. Qed.
+Proof. exact first_copy_wins_start. Qed.
 Print Assumptions C01_first_complete_copy_wins.
 
 (* 4a. "... with exactly those bytes stored".  If, at the moment the live writer completes its correct copy t,
@@ -116,21 +136,21 @@ Print Assumptions C01_first_complete_copy_wins.
        queue belongs to a writer that finished WITHOUT a result ([loser]) - i.e. this copy is the first - then
        whatever happens afterwards (until the object is reset) nothing but t is ever in the store.  (Without "first", theorem 4 still gives
        bytes of the same length and the same hash: equal to t unless H collides.) *)
-Theorem C01_first_complete_copy_exact_bytes : forall H h kd cb ops i w d L,
-  let s := run H h kd cb ops init in
+Theorem C01_first_complete_copy_exact_bytes : forall H h kd cb file expected, start_ok H h kd file expected -> forall ops i w d L,
+  let s := run H h kd cb ops (start kd file expected) in
   nth_error (s_ws s) i = Some w -> w_open w = true -> w_fut w = FPending -> s_len s = Some L -> 0 < L ->
   N.of_nat (length (w_buf w ++ d)) = L -> H (w_buf w ++ d) = h ->
   s_verified s = false -> s_writing s = false ->
   (forall j, In (QWfc j) (s_q s) -> loser s j) ->
   let s1 := fst (step H h kd cb (Write i d) s) in
   forall ops' x, core_ops ops' -> s_store (run H h kd cb ops' s1) = Some x -> x = w_buf w ++ d.
-Proof. exact first_copy_exact. Qed.
+Proof. exact first_copy_exact_start. Qed.
 Print Assumptions C01_first_complete_copy_exact_bytes.
 
 (* 4b. ... and every other writer is shut down, after ANY history: after the first drain (and still after
        drain; io; drain) no writer at all is open or pending, and no writer was created meanwhile. *)
-Theorem C01_first_complete_copy_closes_others : forall H h kd cb ops i w d L,
-  let s := run H h kd cb ops init in
+Theorem C01_first_complete_copy_closes_others : forall H h kd cb file expected, start_ok H h kd file expected -> forall ops i w d L,
+  let s := run H h kd cb ops (start kd file expected) in
   nth_error (s_ws s) i = Some w -> w_open w = true -> w_fut w = FPending -> s_len s = Some L -> 0 < L ->
   N.of_nat (length (w_buf w ++ d)) = L -> H (w_buf w ++ d) = h ->
   let s1 := fst (step H h kd cb (Write i d) s) in
@@ -139,13 +159,13 @@ Theorem C01_first_complete_copy_closes_others : forall H h kd cb ops i w d L,
   (forall j wj, nth_error (s_ws s2) j = Some wj -> w_open wj = false /\ w_fut wj <> FPending)
   /\ (forall j wj, nth_error (s_ws s4) j = Some wj -> w_open wj = false /\ w_fut wj <> FPending)
   /\ length (s_ws s4) = length (s_ws s).
-Proof. exact first_copy_closes_others. Qed.
+Proof. exact first_copy_closes_others_start. Qed.
 Print Assumptions C01_first_complete_copy_closes_others.
 
 (* 4c. The completion callback never fires twice on an object that is not reset in between. *)
-Theorem C01_completed_at_most_once : forall H h kd cb ops, core_ops ops ->
-  (s_completed (run H h kd cb ops init) <= 1)%nat.
-Proof. exact completed_at_most_once. Qed.
+Theorem C01_completed_at_most_once : forall H h kd cb file expected, start_ok H h kd file expected -> forall ops, core_ops ops ->
+  (s_completed (run H h kd cb ops (start kd file expected)) <= 1)%nat.
+Proof. exact completed_at_most_once_start. Qed.
 Print Assumptions C01_completed_at_most_once.
 
 (* 4d. Drain really terminates with an empty ready queue, from any state. *)
@@ -155,10 +175,10 @@ Print Assumptions C01_drain_quiescent.
 
 (* 5. An accepted length is at most 2^21 and is changed by nothing but delete(); a length outside 0..2^21 is
       refused in every state; a length inside is accepted when none was accepted before. *)
-Theorem C01_length_once_bounded : forall H h kd cb ops1 ops2 L,
-  s_len (run H h kd cb ops1 init) = Some L ->
-  L <= MAX_BLOB_SIZE /\ (no_delete ops2 -> s_len (run H h kd cb (ops1 ++ ops2) init) = Some L).
-Proof. exact length_once_bounded. Qed.
+Theorem C01_length_once_bounded : forall H h kd cb file expected, start_ok H h kd file expected -> forall ops1 ops2 L,
+  s_len (run H h kd cb ops1 (start kd file expected)) = Some L ->
+  L <= MAX_BLOB_SIZE /\ (no_delete ops2 -> s_len (run H h kd cb (ops1 ++ ops2) (start kd file expected)) = Some L).
+Proof. exact length_once_bounded_start. Qed.
 Print Assumptions C01_length_once_bounded.
 
 Theorem C01_length_outside_refused : forall n s,
@@ -204,6 +224,18 @@ Example C01_ex_redownload_file :
   let s := run Hid nm KFile true [SetLength 3; Open 1; Write 0 nm; Drain; IoDone; Drain; Delete; SetLength 3; Open 1;
                                    Write 1 nm; Drain; IoDone; Drain] init in
   (s_verified s, s_store s, s_len s, s_completed s) = (true, Some nm, Some 3, 2%nat).
+Proof. vm_compute. reflexivity. Qed.
+
+(* restart over a truncated file with the length known: the file is dropped, nothing verified, and the blob is
+   downloaded again; over an intact file: verified at once, a writer is refused *)
+Example C01_ex_restart_truncated :
+  let s0 := start KFile (Some [Byte.x01; Byte.x02]) (Some 3) in
+  let s := run Hid nm KFile true [SetLength 3; Open 1; Write 0 nm; Drain; IoDone; Drain] s0 in
+  (s_verified s0, s_store s0, s_len s0, s_verified s, s_store s, s_completed s) = (false, None, None, true, Some nm, 1%nat).
+Proof. vm_compute. reflexivity. Qed.
+Example C01_ex_restart_intact :
+  let s0 := start KFile (Some nm) (Some 3) in
+  (s_verified s0, s_store s0, s_len s0, snd (step Hid nm KFile true (Open 1) s0)) = (true, Some nm, Some 3, ROSError).
 Proof. vm_compute. reflexivity. Qed.
 
 (* over-long by one byte: InvalidDataError, nothing stored, nothing verified *)
